@@ -139,6 +139,8 @@ def check_property_file(prop):
         # Print Assumptions lists "Axioms:" followed by "name : type" lines
         for m in re.finditer(r'^([A-Za-z_][A-Za-z0-9_.\']*)\s*:', out, flags=re.M):
             a = m.group(1)
+            if a in ('Axioms', 'Warning', 'Error', 'File'):
+                continue          # the header of Print Assumptions / coqc diagnostics, not axiom names
             if '.' in a or a[0].isupper() or a in ('classic',):
                 axioms.add(a)
         logs.append(out[-1500:])
